@@ -238,7 +238,7 @@ func (p c13EnvPool) env(r *rand.Rand) []string {
 		env = append(env, "TZ="+tz)
 	}
 	extras := []string{"FOO=bar", "CONVERGEN_DEBUG=1", "GOFILE=other.go", "GOPACKAGE=zzz", "GOLINE=5", "COLUMNS=10", "NO_COLOR=1", "TERM=dumb",
-		"LC_ALL=tr_TR.UTF-8", "USER=nobody", "PWD=/nonexistent", "GODEBUG=gctrace=0", "GOGC=20", "LONG_" + strings.Repeat("X", 200) + "=1"}
+		"LC_ALL=tr_TR.UTF-8", "USER=nobody", "PWD=/nonexistent", "GODEBUG=gctrace=0", "GOGC=20", "LONG_" + strings.Repeat("X", 40) + "=" + strings.Repeat("y", 3000)}
 	for _, x := range extras {
 		if r.Intn(4) == 0 {
 			env = append(env, x)
@@ -254,15 +254,40 @@ func c13Materialise(root string, sc *c13Scen) error {
 	return core.WriteTree(root, sc.Files)
 }
 
-// c13Normalise replaces the absolute input path, the spelling used by the group and the
+// c13Normalise replaces the absolute input/output path, the spelling of the input path used
+// by the group (and the default output path the tool derives from that spelling) and the
 // module root by canonical tokens; nothing else is touched.
 func c13Normalise(s, root, setupRel, spelling string) string {
 	abs := filepath.Join(root, setupRel)
+	gen := func(p string) string { return strings.TrimSuffix(p, ".go") + ".gen.go" }
+	s = strings.ReplaceAll(s, gen(abs), "<OUTPUT>")
 	s = strings.ReplaceAll(s, abs, "<INPUT>")
 	if spelling != abs {
+		s = strings.ReplaceAll(s, gen(spelling), "<OUTPUT>")
 		s = strings.ReplaceAll(s, spelling, "<INPUT>")
 	}
 	return strings.ReplaceAll(s, root, "<ROOT>")
+}
+
+// c13Diag returns the part of stderr that is compared. For a run that ended in a Go runtime
+// crash (C14's subject) the goroutine dump — stack addresses, goroutine numbers, register
+// values — is not a diagnostic of the tool: only the text before it (the tool's own messages
+// and the panic message) is compared.
+func c13Diag(exit int, stderr string) string {
+	if exit != 2 && exit != -1 {
+		return stderr
+	}
+	if i := strings.Index(stderr, "\ngoroutine "); i >= 0 {
+		stderr = stderr[:i]
+	}
+	var keep []string
+	for _, l := range strings.Split(stderr, "\n") {
+		if strings.HasPrefix(l, "[signal ") {
+			continue
+		}
+		keep = append(keep, l)
+	}
+	return strings.Join(keep, "\n")
 }
 
 func c13ExitsOf(obs []*c13Obs) string {
@@ -310,9 +335,9 @@ func RunC13(e *core.Env) int {
 		"for -dry -print runs the output bytes are stdout; for writing runs the bytes at the output path; the two kinds are compared among themselves only (different flags)",
 		"only the module root / input path spelling is normalised in stderr before the cross-group comparison")
 	thorough := e.Tier == "thorough"
-	nScen, perGroup := 200, []int{3, 2, 2, 2, 1, 2}
+	nScen, perGroup := 400, []int{3, 2, 2, 2, 1, 2}
 	if thorough {
-		nScen, perGroup = 600, []int{10, 6, 6, 6, 4, 8}
+		nScen, perGroup = 1500, []int{10, 6, 6, 6, 4, 8}
 	}
 	pool := c13NewEnvPool(e)
 	outside := filepath.Join(e.Work, "outside-cwd")
@@ -436,6 +461,16 @@ func RunC13(e *core.Env) int {
 		norm := func(o *c13Obs, s string) string {
 			_, _, sp := c13Groups[o.Group].spec(o.Root, outside, sc)
 			return c13Normalise(s, o.Root, sc.SetupRel, sp)
+		}
+		crashes := 0
+		for _, o := range plan {
+			if d := c13Diag(o.Exit, o.Stderr); d != o.Stderr {
+				o.Stderr = d
+				crashes++
+			}
+		}
+		if crashes > 0 {
+			rep.Count("crashed_runs_goroutine_dump_not_compared", crashes)
 		}
 		srcHash := c13SrcHash(sc)
 		nontrivial := func(o *c13Obs) bool {
